@@ -127,5 +127,26 @@ theorem normalised_weight_is_the_quotient (a b : Dec) (ha : 0 ≤ a) (hb : 0 < b
 /-- non-vacuity: three equal weights — each normalised weight is 0.333…, the sum is 1 − 10⁻¹⁸ -/
 example : ([one, one, one].map (fun x => quo x (3 * one))).sum = P - 1 := by decide
 
+
+/-- "a claim pays the accumulated entitlement to within one base unit per claim and reward denomination": what one claimed
+    history entry pays, TruncateInt(Mul(Δ, t)) for index difference Δ and token value t, against the exact product —
+    paid·10³⁶ ≤ Δ·t + H and Δ·t − H < (paid+1)·10³⁶ -/
+theorem one_entry_pays_within_one_unit (Δ t : Dec) (hΔ : 0 ≤ Δ) (ht : 0 ≤ t) :
+    let paid := truncateInt (mul Δ t)
+    paid * P * P ≤ Δ * t + H ∧ Δ * t - H < (paid + 1) * P * P := claim_entry_bound Δ t hΔ ht
+
+/-- pro-rata within an asset, end to end: a reward part m (raw) spread by one index move over token value tt and claimed at
+    once by a position of token value t pays at most m·t/tt + ½·10⁻¹⁸·t + ½·10⁻¹⁸ and at least that minus one base unit and
+    the same roundings (cross-multiplied by 10⁵⁴·tt) -/
+theorem position_gets_its_share (m tt t : Dec) (hm : 0 ≤ m) (htt : 0 < tt) (ht : 0 ≤ t) :
+    let bump := quo m tt
+    let paid := truncateInt (mul bump t)
+    paid * P * P * (P * tt) ≤ m * P2 * t + H * tt * t + H * (P * tt) ∧
+    m * P2 * t ≤ (paid + 1) * P * P * (P * tt) + (H + 1) * tt * t + H * (P * tt) :=
+  ⟨position_payout_upper m tt t hm htt ht, position_payout_lower m tt t hm htt ht⟩
+
+/-- non-vacuity: a part of 10 tokens over 4 staked tokens, position of 1 token: 2.5 → pays 2 -/
+example : truncateInt (mul (quo (10 * one) 4) 1) = 2 := by decide
+
 end C13
 end Alliance
